@@ -309,6 +309,47 @@ func runC06(c *Ctx) {
 		}
 	}
 
+	// ---- U1 height-window arithmetic on unsigned integers never wraps into a comparison
+	checkUnsignedDifferences(c, "C06.U1 unsigned-difference-guarded", func(fn *ssa.Function) bool {
+		k := FuncKey(fn)
+		return strings.HasPrefix(k, "pkg/consensus.(*Executer).") || strings.HasPrefix(k, "pkg/consensus/certificate.")
+	}, c06UnsignedTable, 0)
+
+	// ---- R4b the pool's duplicate test looks at every pooled commit: a "not found" answer is
+	// given only after the scan is exhausted (an early negative relies on an order the pool
+	// does not keep between Select calls, and lets a re-gossiped commit in twice)
+	for _, key := range []string{"pkg/consensus/certificate.(SingleCommits).has"} {
+		fn := c.Anchor(key)
+		if fn == nil {
+			continue
+		}
+		loops := naturalLoops(fn)
+		bad := ""
+		for _, r := range Returns(fn) {
+			if len(r.Results) != 1 || T(r.Results[0]).String() != "false" {
+				continue
+			}
+			for _, li := range loops {
+				if li.Blocks[r.Block()] {
+					bad = "returns false inside the scan at " + p.InstrPos(r)
+				}
+				// a block outside the loop but reachable only from inside without passing the
+				// loop's exhaustion test
+				for _, pr := range r.Block().Preds {
+					if li.Blocks[pr] && pr != li.Header {
+						if iff, ok := pr.Instrs[len(pr.Instrs)-1].(*ssa.If); ok {
+							cond := T(iff.Cond).String()
+							if !strings.Contains(cond, "builtin:len(") {
+								bad = "returns false from inside the scan (" + cond + ") at " + p.InstrPos(r)
+							}
+						}
+					}
+				}
+			}
+		}
+		c.Require("C06.R4 duplicate-test-exhaustive", key, p.Pos(fn.Pos()), "the membership test answers false only when no pooled commit matched", len(loops) >= 1 && bad == "", bad)
+	}
+
 	// ---- R3 alignment and comparator agreement
 	{
 		for _, s := range CallsIn(vac, "(consensus/certificate.Certificate).VerifyAggregateCertificateSignature") {
@@ -522,4 +563,11 @@ func runC06(c *Ctx) {
 			c.Require("C06.R6 own-commit-window", FuncKey(gac)+": aggregate", p.InstrPos(s.Call), "aggregates only above maxHeightCertified and with aggregate weight >= certificate threshold", okW && okH, fmt.Sprintf("weight=%v height=%v", okW, okH))
 		}
 	}
+}
+
+var c06UnsignedTable = []unsignedRow{
+	{fn: "pkg/consensus.(*Executer).singleCommitValidator", frag: "#1 − 100)", reason: "below height 100 the difference wraps and the test discards the commit unless BFT parameters exist at its height: nothing that should stay out enters the pool (what C06 states); that valid commits are dropped during the first 100 heights is a liveness matter outside the statement"},
+	{fn: "pkg/consensus.(*Executer).broadcastCertificate$1", frag: "maxHeightPrecommited) − 100)", reason: "as in singleCommitValidator: a wrapped bound only removes commits from the pool earlier"},
+	{fn: "pkg/consensus.(*Executer).verifyAggregateCommit", frag: "NextHeightBFTParameters(", reason: "NextHeightBFTParameters(store, maxHeightCertified+1) returns a height >= maxHeightCertified+1 >= 1"},
+	{fn: "pkg/consensus.(*Executer).GetAggregateCommit", frag: "NextHeightBFTParameters(", reason: "as in verifyAggregateCommit: the next parameter height is >= 1"},
 }
